@@ -631,6 +631,88 @@ func checkLogic(fail func(k, m string)) int {
 	return n
 }
 
+// WithNoDuplicates is the default comparer as a resource option: a Change message written again with nothing but
+// a new change_time is the value the subscriber already holds, a Change with another state is not. All sequences of
+// 1-3 writes over {ON@1s, ON@2s, OFF@2s, ON@3s} on a Value and on a Collection item.
+func checkNoDuplicates(s *hx.Seq) {
+	mk := func(st traits.OnOff_State, sec int64) *traits.PullOnOffResponse_Change {
+		return &traits.PullOnOffResponse_Change{Name: "n", ChangeTime: &timestamppb.Timestamp{Seconds: sec}, OnOff: &traits.OnOff{State: st}}
+	}
+	alphabet := []*traits.PullOnOffResponse_Change{mk(traits.OnOff_ON, 1), mk(traits.OnOff_ON, 2), mk(traits.OnOff_OFF, 2), mk(traits.OnOff_ON, 3)}
+	var seqs [][]int
+	var rec func(cur []int)
+	rec = func(cur []int) {
+		if len(cur) > 0 {
+			seqs = append(seqs, append([]int{}, cur...))
+		}
+		if len(cur) == 3 {
+			return
+		}
+		for i := range alphabet {
+			rec(append(cur, i))
+		}
+	}
+	rec(nil)
+	for _, sq := range seqs {
+		for _, coll := range []bool{false, true} {
+			s.Eval(1)
+			s.Trans(len(sq))
+			ctx, cancel := context.WithCancel(context.Background())
+			initial := mk(traits.OnOff_OFF, 0)
+			var got []string
+			done := make(chan struct{})
+			sentinel := &traits.PullOnOffResponse_Change{Name: "end"}
+			write := func(m proto.Message) {}
+			if coll {
+				c := resource.NewCollection(resource.WithNoDuplicates(), resource.WithInitialRecord("a", initial))
+				ch := c.Pull(ctx, resource.WithBackpressure(true), resource.WithUpdatesOnly(true))
+				go func() {
+					defer close(done)
+					for e := range ch {
+						v := e.NewValue.(*traits.PullOnOffResponse_Change)
+						if v.Name == "end" {
+							return
+						}
+						got = append(got, v.OnOff.GetState().String())
+					}
+				}()
+				write = func(m proto.Message) { c.Update("a", m) }
+			} else {
+				v := resource.NewValue(resource.WithNoDuplicates(), resource.WithInitialValue(initial))
+				ch := v.Pull(ctx, resource.WithBackpressure(true), resource.WithUpdatesOnly(true))
+				go func() {
+					defer close(done)
+					for e := range ch {
+						v := e.Value.(*traits.PullOnOffResponse_Change)
+						if v.Name == "end" {
+							return
+						}
+						got = append(got, v.OnOff.GetState().String())
+					}
+				}()
+				write = func(m proto.Message) { v.Set(m) }
+			}
+			// reference: delivered exactly when the state differs from the last one delivered; an updates-only
+			// subscriber holds nothing before its first event, so the first write is always news to it
+			held := ""
+			var want []string
+			for _, i := range sq {
+				write(proto.Clone(alphabet[i]))
+				if st := alphabet[i].OnOff.State.String(); st != held {
+					want = append(want, st)
+					held = st
+				}
+			}
+			write(sentinel)
+			<-done
+			cancel()
+			if fmt.Sprint(got) != fmt.Sprint(want) {
+				s.Fail(fmt.Sprintf("no-duplicates coll=%v %v", coll, sq), fmt.Sprintf("writes %v (0: ON@1s, 1: ON@2s, 2: OFF@2s, 3: ON@3s) on a resource WithNoDuplicates: delivered %v, a subscriber that holds what it was sent last is owed %v", sq, got, want), nil)
+			}
+		}
+	}
+}
+
 // ---------------------------------------------------------------- stream clause
 
 func checkStreams(s *hx.Seq) {
@@ -987,6 +1069,7 @@ func main() {
 		checkStreams(s)
 		checkMaskedStreams(s)
 		checkLifecycleStreams(s)
+		checkNoDuplicates(s)
 		s.Distinct("value")
 		s.Distinct("collection")
 		s.Sample("Value and Collection with WithMessageEquivalence(Equal(FloatValueApprox(0,0.1))): all write sequences of length <=3 over {1, 1.0625, 1.125, 1.25}, delivered values compared with the reference")
